@@ -1,5 +1,6 @@
 import Mdns.Driver.Sim
 import Mdns.Driver.MonClient
+import Mdns.Driver.MonShutdown
 /-
   Dispatch of the history monitors by property tag (`sim <TAG> …` / `sim2 <TAG> …`).
 -/
@@ -31,6 +32,7 @@ def monitorTag (prop : String) (script : List Cmd) (obs : List Obs) : Option Str
                (MonClient.monitorC04Followups script iters 0)
     | "C05" => MonClient.monitorC05 script iters 0
     | "C17" => (MonClient.monitorC17 script iters 0) <|> refineD24 iters (Sim.monitorC13 script iters)
+    | "C14" => MonShutdown.monitorBurst script iters 1
     | "C20" => (MonClient.monitorC20 script iters 0) <|> (MonClient.monitorC20Unrequested script iters 0)
     | _ => none
 
